@@ -465,6 +465,11 @@ def constrained():
     rec2 = T('SEQUENCE', fields=[('a', T('INTEGER'), 'opt'), ('b', T('BOOLEAN'), 'req')], within={'a': (1, 5)})
     out.append((dict(rec2, violating=[{'a': 9, 'b': True}, {'a': 0, 'b': False}]), {'b': True}))
     out.append((dict(rec2, violating=[{'a': 6, 'b': True}]), {'a': 5, 'b': False}))
+    # ... and `a (1..5) PRESENT` in one WITH COMPONENTS that names the member twice, in either order
+    for one in ('fwd', 'rev'):
+        rec5 = T('SEQUENCE', fields=[('a', T('INTEGER'), 'opt'), ('b', T('BOOLEAN'), 'req')], within={'a': (1, 5)},
+                 present=['a'], one=one)
+        out.append((dict(rec5, violating=[{'b': True}, {'a': 9, 'b': True}, {'a': 0, 'b': False}]), {'a': 3, 'b': True}))
     rec3 = T('SET', fields=[('a', T('INTEGER'), 'opt'), ('b', T('BOOLEAN', [('I', CTX, 0)]), 'opt')], absent=['b'])
     out.append((dict(rec3, violating=[{'b': True}, {'a': 1, 'b': False}]), {'a': 1}))
     # SIZE on a record counts the members that are present (not the slots reads have touched)
